@@ -350,7 +350,21 @@ def judge(model, m, call, r, numeric, bump):
             keys = {k.split(".")[0] for k, _ in pairs}
             if fd.name not in keys and fd.json_name not in keys:
                 bad("required-field-missing-from-query", f"{fd.name} (value {getattr(sent, fd.name)!r})", default=not bool(getattr(sent, fd.name)))
-    # no duplication
+    # no duplication: a query key naming a path variable of the chosen binding (whatever its value)
+    pv_names = set(pv)
+    for k, x in pairs:
+        segs, cur, names = k.split("."), bm.DESCRIPTOR, []
+        for seg in segs:
+            f = refs._field_by_segment(cur, seg) if cur is not None else None
+            if f is None:
+                break
+            names.append(f.name)
+            cur = f.message_type if f.type == FD.TYPE_MESSAGE else None
+        if ".".join(names) in pv_names:
+            req_names = {f.name for f in refs.required_fields(bm.DESCRIPTOR)}
+            bad("duplicated-field", f"path variable {'.'.join(names)} also travels as query parameter {k}={x!r}",
+                required_default_resent_for_additional_binding=bool(idx > 0 and names[0] in req_names and x in ("", "0", "0.0", "false")
+                                                                    and names[0] not in {v.split(".")[0] for v, _ in refs.path_vars(bindings[0][1])}))
     lp, lq, lb = refs.leaves(pm), refs.leaves(qm), refs.leaves(bm)
     for a, b, names in ((lp, lq, "path/query"), (lp, lb, "path/body"), (lq, lb, "query/body")):
         dup = a & b
